@@ -20,6 +20,10 @@ use vharness::*;
 enum V {
     Null,
     Int(i64),
+    /// float with the exact value `twice / 2`
+    Flt(i64),
+    /// rational with the exact value `twice / 2` (`2/2` stays the rational `1/1`)
+    Rat(i64),
     Str(String),
     List(Vec<V>),
     Bytes(Vec<u8>),
@@ -44,6 +48,8 @@ fn kind_of(v: &V) -> &'static str {
     match v {
         V::Null => "null",
         V::Int(_) => "int",
+        V::Flt(_) => "float",
+        V::Rat(_) => "rational",
         V::Str(_) => "string",
         V::List(_) => "list",
         V::Bytes(_) => "bytes",
@@ -102,6 +108,14 @@ fn canon_v(v: &V, dict_orders: &[(Vec<V>, String)]) -> String {
     match v {
         V::Null => "null".into(),
         V::Int(i) => i.to_string(),
+        V::Flt(t) => canon_f64(*t as f64 / 2.0),
+        V::Rat(t) => {
+            if t % 2 == 0 {
+                format!("{}/1", t / 2)
+            } else {
+                format!("{}/2", t)
+            }
+        }
         V::Str(s) => format!("s:{}", hex(s.as_bytes())),
         V::List(xs) => format!("[{}]", xs.iter().map(|x| canon_v(x, dict_orders)).collect::<Vec<_>>().join(",")),
         V::Bytes(b) => format!("b:{}", hex(b)),
@@ -157,6 +171,21 @@ fn src_v(v: &V, dict_vars: &[(Vec<V>, String)]) -> String {
                 format!("(0-{})", -i)
             } else {
                 i.to_string()
+            }
+        }
+        V::Flt(t) => {
+            let f = (*t as f64) / 2.0;
+            if f < 0.0 {
+                format!("(0-{:?})", -f)
+            } else {
+                format!("{:?}", f)
+            }
+        }
+        V::Rat(t) => {
+            if *t < 0 {
+                format!("((0-{})/2)", -t)
+            } else {
+                format!("({}/2)", t)
             }
         }
         V::Str(s) => str_lit(s),
@@ -441,6 +470,12 @@ fn parse_v(s: &str) -> Option<V> {
     }
     if s == "null" {
         Some(V::Null)
+    } else if let Some(h) = s.strip_prefix("f:") {
+        let bits = u64::from_str_radix(h, 16).ok()?;
+        Some(V::Flt((f64::from_bits(bits) * 2.0) as i64))
+    } else if let Some((n, d)) = s.split_once('/') {
+        let n: i64 = n.parse().ok()?;
+        Some(V::Rat(if d == "1" { 2 * n } else { n }))
     } else if let Some(h) = s.strip_prefix("s:") {
         String::from_utf8(unhex(h)).ok().map(V::Str)
     } else if let Some(h) = s.strip_prefix("b:") {
@@ -507,7 +542,8 @@ fn parse_case(line: &str) -> Option<(String, Vec<A>)> {
     let name = toks.next()?.to_string();
     let mut args = vec![];
     for t in toks {
-        if let Some(r) = t.strip_prefix("f:") {
+        let is_float = t.len() == 18 && t.starts_with("f:") && t[2..].chars().all(|c| c.is_ascii_hexdigit());
+        if let (Some(r), false) = (t.strip_prefix("f:"), is_float) {
             let mut p = r.splitn(2, ':');
             let n = p.next()?;
             let n: &'static str = FN_NAMES.iter().find(|x| **x == n)?;
@@ -555,6 +591,98 @@ enum Profile {
     Mixed,
     Strs,
     Lists,
+    /// numbers (and lists of numbers) that are `==` but print differently: 1, 1.0, 1/1, 3/2, 1.5 …
+    Ties,
+}
+
+/// an element of the tie pool
+fn elem_tie(rng: &mut Rng) -> V {
+    match rng.below(14) {
+        0 | 1 => V::Int(1),
+        2 | 3 => V::Flt(2),
+        4 => V::Rat(2),
+        5 => V::Int(2),
+        6 => V::Flt(4),
+        7 => V::Rat(3),
+        8 => V::Flt(3),
+        9 => V::Flt(1),
+        10 => V::List(vec![V::Int(1)]),
+        11 => V::List(vec![V::Flt(2)]),
+        12 => V::List(vec![V::Int(1), if rng.chance(1, 2) { V::Flt(4) } else { V::Int(2) }]),
+        _ => V::Int(rng.range(0, 3)),
+    }
+}
+
+fn has_frac(v: &V) -> bool {
+    match v {
+        V::Flt(_) | V::Rat(_) => true,
+        V::List(xs) | V::Stream(xs, _) | V::Dict(xs) => xs.iter().any(has_frac),
+        V::Map(kvs) => kvs.iter().any(|(k, v)| has_frac(k) || has_frac(v)),
+        _ => false,
+    }
+}
+/// replace floats / rationals by integers (for the builtins whose arithmetic or text output on
+/// floats is outside the model)
+fn strip_frac(v: &V) -> V {
+    match v {
+        V::Flt(t) | V::Rat(t) => V::Int(t / 2),
+        V::List(xs) => V::List(xs.iter().map(strip_frac).collect()),
+        V::Stream(xs, c) => V::Stream(xs.iter().map(strip_frac).collect(), *c),
+        V::Dict(xs) => V::Dict(dedup(xs.iter().map(strip_frac).collect())),
+        V::Map(kvs) => V::Map(kvs.iter().map(|(k, v)| (strip_frac(k), strip_frac(v))).collect()),
+        v => v.clone(),
+    }
+}
+/// numeric-aware equality of dictionary keys (1, 1.0 and 1/1 are one key)
+fn key_eq(a: &V, b: &V) -> bool {
+    fn twice(v: &V) -> Option<i64> {
+        match v {
+            V::Int(i) => Some(2 * i),
+            V::Flt(t) | V::Rat(t) => Some(*t),
+            _ => None,
+        }
+    }
+    match (a, b) {
+        (V::List(x), V::List(y)) => x.len() == y.len() && x.iter().zip(y.iter()).all(|(p, q)| key_eq(p, q)),
+        _ => match (twice(a), twice(b)) {
+            (Some(p), Some(q)) => p == q,
+            (None, None) => a == b,
+            _ => false,
+        },
+    }
+}
+
+/// keep floats away from what the model does not cover: arithmetic lambdas become structural ones,
+/// and the arithmetic / text builtins get integer inputs
+fn tame_fracs(c: &mut Case) {
+    if !c.args.iter().any(|a| match a {
+        A::V(v) => has_frac(v),
+        A::F(_, Some(k)) => has_frac(k),
+        _ => false,
+    }) {
+        return;
+    }
+    let strip_all = matches!(c.name, "sum" | "product" | "join" | "unwords" | "unlines" | "vector_map" | ".+" | "+.");
+    for a in c.args.iter_mut() {
+        match a {
+            A::V(v) if strip_all => *v = strip_frac(v),
+            A::F(n, k) => {
+                let sub: &'static str = match *n {
+                    "mod" | "neg" => "id",
+                    "add" | "sub" => "pair",
+                    "cmpmod" => "cmp",
+                    other => other,
+                };
+                *n = sub;
+                if strip_all {
+                    if let Some(kv) = k {
+                        *kv = strip_frac(kv);
+                    }
+                }
+            }
+            _ => {}
+        }
+    }
 }
 
 fn gen_len(rng: &mut Rng, max: usize) -> usize {
@@ -572,6 +700,7 @@ fn gen_elems(rng: &mut Rng, n: usize, profile: Profile) -> Vec<V> {
             Profile::Ints => V::Int(small_int(rng)),
             Profile::Mixed => elem_mixed(rng),
             Profile::Strs => V::Str(rng.pick(&["a", "b", "ab", "", "ba", "é", "a"]).to_string()),
+            Profile::Ties => elem_tie(rng),
             Profile::Lists => match rng.below(6) {
                 0 => V::Str(rng.pick(&["ab", "", "c"]).to_string()),
                 1 => V::Vector((0..rng.below(3)).map(|_| small_int(rng)).collect()),
@@ -587,7 +716,7 @@ fn gen_elems(rng: &mut Rng, n: usize, profile: Profile) -> Vec<V> {
 fn dedup(xs: Vec<V>) -> Vec<V> {
     let mut out: Vec<V> = vec![];
     for x in xs {
-        if !out.contains(&x) {
+        if !out.iter().any(|y| key_eq(y, &x)) {
             out.push(x)
         }
     }
@@ -640,6 +769,7 @@ fn pick_profile(rng: &mut Rng) -> Profile {
     match rng.below(10) {
         0 | 1 => Profile::Mixed,
         2 => Profile::Strs,
+        3 | 4 => Profile::Ties,
         _ => Profile::Ints,
     }
 }
@@ -996,6 +1126,25 @@ fn gen_case(rng: &mut Rng, which: usize, max_len: usize) -> Case {
             let p = if rng.chance(1, 2) { Profile::Strs } else { Profile::Ints };
             let k2 = *rng.pick(&["list", "list", "string", "stream", "dict", "vector"]);
             let a = gen_seq(rng, k2, p, max_len);
+            if rng.chance(1, 3) {
+                // bytes separator: every piece is converted to bytes; empty pieces at every position
+                let n = gen_len(rng, 5);
+                let pieces: Vec<V> = (0..n)
+                    .map(|_| match rng.below(10) {
+                        0 | 1 => V::Bytes(vec![]),
+                        2 => V::List(vec![]),
+                        3 | 4 => V::Bytes((0..1 + rng.below(2)).map(|_| *rng.pick(&[0u8, 1, 2, 255])).collect()),
+                        5 => V::List((0..1 + rng.below(2)).map(|_| V::Int(rng.range(0, 3))).collect()),
+                        6 => V::Vector(vec![rng.range(0, 5)]),
+                        7 => V::Str(rng.pick(&["", "", "a"]).to_string()),
+                        8 => if rng.chance(1, 3) { V::List(vec![V::Int(300)]) } else { V::Stream(vec![V::Int(1), V::Int(2)], 1) },
+                        _ => if rng.chance(1, 3) { V::Int(1) } else { V::Bytes(vec![7]) },
+                    })
+                    .collect();
+                let whole = if rng.chance(1, 8) { V::Bytes(vec![1, 2]) } else { V::List(pieces) };
+                let sep: Vec<u8> = (0..rng.below(3)).map(|_| *rng.pick(&[0u8, 9, 255])).collect();
+                return mk("join", vec![A::V(whole), A::V(V::Bytes(sep))]);
+            }
             let sep = rng.pick(&[",", "", ", ", "é"]).to_string();
             mk("join", vec![A::V(a), A::V(V::Str(sep))])
         }
@@ -1090,7 +1239,11 @@ fn gen_case(rng: &mut Rng, which: usize, max_len: usize) -> Case {
             let mut args: Vec<A> = (0..m)
                 .map(|_| {
                     let n = gen_len(rng, 4);
-                    let pp = if rng.chance(1, 4) { Profile::Mixed } else { Profile::Ints };
+                    let pp = match rng.below(6) {
+                        0 => Profile::Mixed,
+                        1 | 2 => Profile::Ties,
+                        _ => Profile::Ints,
+                    };
                     let keys = dedup(gen_elems(rng, n, pp));
                     let kvs: Vec<(V, V)> = keys.into_iter().map(|k| (k, if rng.chance(1, 6) { elem_mixed(rng) } else { V::Int(small_int(rng)) })).collect();
                     A::V(V::Map(kvs))
@@ -1134,6 +1287,18 @@ fn corpus() -> Vec<Case> {
         mk("filter", vec![A::V(V::Stream(vec![V::Int(3), V::Int(1)], 2 + 3)), A::F("k1", None)]),
         mk("unique", vec![A::V(V::Stream(vec![V::Str("a".into()), V::Str("b".into())], 2 + 4 + 5))]),
         mk("suffixes", vec![A::V(V::Stream(vec![V::Int(0), V::Int(2)], 2 + 1 + 15 + 20))]),
+        // bytes join with leading empty pieces (seeded change C13-a3)
+        mk("join", vec![A::V(V::List(vec![V::Bytes(vec![]), V::Bytes(vec![1])])), A::V(V::Bytes(vec![0]))]),
+        mk("join", vec![A::V(V::List(vec![V::List(vec![]), V::Bytes(vec![]), V::Bytes(vec![1]), V::Bytes(vec![])])), A::V(V::Bytes(vec![9]))]),
+        // ties between == numbers of different representation (seeded change C13-b3)
+        mk("max", vec![A::V(V::List(vec![V::Int(1), V::Flt(2)]))]),
+        mk("min", vec![A::V(V::List(vec![V::Flt(3), V::Rat(3)]))]),
+        mk("max", vec![A::V(V::List(vec![V::List(vec![V::Int(1)]), V::List(vec![V::Flt(2)])]))]),
+        mk("max", vec![A::V(V::Int(1)), A::V(V::Flt(2))]),
+        mk("max", vec![A::V(V::List(vec![V::Int(1), V::Flt(2)])), A::F("cmp", None)]),
+        mk("sort", vec![A::V(V::List(vec![V::Flt(2), V::Int(1), V::Rat(2), V::Flt(1)]))]),
+        mk("unique", vec![A::V(V::List(vec![V::Flt(2), V::Int(1), V::Rat(3), V::Flt(3)]))]),
+        mk("frequencies", vec![A::V(V::List(vec![V::Flt(2), V::Int(1), V::Int(1)]))]),
         // chained infix forms (seeded change C13-a2)
         Case { name: "chain", args: vec![A::V(l(&[1, 2, 3])), A::V(l(&[4, 5])), A::V(l(&[6]))], sorted: false, chain: Some(vec!["ziplongest", "ziplongest"]) },
         Case { name: "chain", args: vec![A::V(l(&[10, 20])), A::V(l(&[1, 2])), A::V(l(&[5])), A::F("sub", None)], sorted: false, chain: Some(vec!["ziplongest", "ziplongest", "with"]) },
@@ -1318,7 +1483,9 @@ fn main() {
     let mut cases = corpus();
     let mut i = 0usize;
     while cases.len() < n_cases {
-        cases.push(gen_case(&mut rng, i % N_FAMILIES, max_len));
+        let mut c = gen_case(&mut rng, i % N_FAMILIES, max_len);
+        tame_fracs(&mut c);
+        cases.push(c);
         i += 1;
     }
 
